@@ -160,6 +160,25 @@ def _analyse(ctx):
                             findings.append(("DET-3", f.q, "mutates default of %s" % a.arg,
                                              "%s mutates the object bound to parameter %s, whose default `%s` is created once and shared by all calls (%s)"
                                              % (f.q, a.arg, U(d), U(st)[:60]), "%s:%d" % (m.rel, st.lineno)))
+                    # the default object stored in an instance attribute and mutated by another method of the class family
+                    if f.cls is not None:
+                        attrs = [U(t)[5:] for n2 in ast.walk(node) if isinstance(n2, ast.Assign) and isinstance(n2.value, ast.Name) and n2.value.id == a.arg
+                                 for t in n2.targets if U(t).startswith("self.") and U(t).count(".") == 1]
+                        fam = [repo.classes[x] for x in repo.ancestors(f.cls.name) if x in repo.classes] + [repo.classes[x] for x in repo.subclasses(f.cls.name, strict=True)]
+                        for attr in attrs:
+                            hit = None
+                            for k in fam:
+                                for g2 in k.methods.values():
+                                    for kind, tgt, st in mutations(g2.node):
+                                        if kind == "name-augassign":
+                                            continue
+                                        recv = tgt if not kind.startswith("attribute") else tgt.value
+                                        if U(recv) == "self.%s" % attr:
+                                            hit = hit or (g2, st)
+                            if hit and is_mutable_expr(d):
+                                findings.append(("DET-3", f.q, "default of %s stored in self.%s and mutated by %s" % (a.arg, attr, hit[0].q),
+                                                 "%s stores parameter %s (default `%s`, created once) in self.%s without copying and %s mutates it (%s): every object built with the default shares one list"
+                                                 % (f.q, a.arg, U(d), attr, hit[0].q, U(hit[1])[:50]), "%s:%d" % (m.rel, node.lineno)))
                 # DET-6
                 for d in node.decorator_list:
                     dn = U(d.func) if isinstance(d, ast.Call) else U(d)
